@@ -7,7 +7,7 @@ import concurrent.futures, json, os, sys
 sys.path.insert(0, os.path.join(os.path.dirname(os.path.abspath(__file__)), "..", "lib"))
 import vf
 
-MODEL_RECHECKS = 0      # 1 when Model/C15.v code_rechecks = true (one more step inside the critical section)
+MODEL_RECHECKS = 1      # 1 when Model/C15.v code_rechecks = true (one more step inside the critical section)
 WITNESS = [0, 1, 0, 0, 0, 1, 1, 1]      # A.Check, B.Check, A.Lock .. A.Unlock, B.Lock .. B.Unlock
 
 
@@ -136,6 +136,49 @@ def predicates(case, out, nslots):
     return bad
 
 
+def stress_predicates(pool, tab, shape, out, nslots):
+    """same predicates on an unscheduled run: nproc processes x ngor goroutines each registering every id of the pool"""
+    f = out.split()
+    who = "processes x goroutines = %s, pool=%s" % (shape, [i.decode("latin-1") for i in pool])
+    if f[:1] == ["2"]:
+        return [("reg-hang", "unscheduled concurrent registrations did not all return (deadline): " + who)], {}
+    if f[:1] != ["0"]:
+        return [("reg-driver", "unexpected driver output %s" % out[:200])], {}
+    p = split(f[1:])
+    recs = [tuple(int(x) for x in p[0][i:i + 5]) for i in range(0, len(p[0]), 5)]      # proc, goroutine, id index, error class, uid
+    idx, pwd = dec(p[1]), dec(p[2])
+    init = list(tab) + [b""] * (nslots - len(tab))
+    bad, stats = [], {}
+    for r in recs:
+        k = {0: "registered", 1: "exists", 2: "no slot", 104: "semop interrupted"}.get(r[3], "error %d" % r[3])
+        stats[k] = stats.get(k, 0) + 1
+    succ = [r for r in recs if r[3] == 0]
+    if len(recs) != shape[0] * shape[1] * len(pool):
+        bad.append(("reg-unfinished", "%d of %d calls reported a result: %s" % (len(recs), shape[0] * shape[1] * len(pool), who)))
+    for r in succ:
+        if not (1 <= r[4] <= nslots) or init[r[4] - 1] != b"":
+            bad.append(("reg-slot-not-free", "a registration was given uid %d, which was not a free slot: %s; %s" % (r[4], r, who)))
+    if len(set(r[4] for r in succ)) != len(succ):
+        bad.append(("reg-shared-slot", "two successful registrations share a slot: %s; %s" % (sorted(succ, key=lambda r: r[4]), who)))
+    taken = {}
+    for k, i in enumerate(init):
+        if i:
+            taken.setdefault(low(i), []).append("slot %d (before)" % (k + 1))
+    for r in succ:
+        taken.setdefault(low(pool[r[2]]), []).append("process %d goroutine %d -> uid %d" % (r[0], r[1], r[4]))
+    for k, v in sorted(taken.items()):
+        if len(v) > 1 and any(x.startswith("process") for x in v):
+            bad.append(("reg-duplicate-id", "user id %r (case-insensitive) is held more than once after unscheduled concurrent registrations: %s; %s" % (k.decode("latin-1"), ", ".join(v), who)))
+    want = list(init)
+    for r in succ:
+        if 1 <= r[4] <= nslots:
+            want[r[4] - 1] = pool[r[2]]
+    if idx != want or pwd != want:
+        d = [(k + 1, want[k], idx[k], pwd[k]) for k in range(nslots) if not (idx[k] == want[k] == pwd[k])]
+        bad.append(("reg-index-passwds-disagree", "SHM index / .PASSWDS do not hold exactly the successful registrations: (uid, expected, index, .PASSWDS) = %s; %s" % (d[:4], who)))
+    return bad, stats
+
+
 def case_line(case):
     mode, procs, ids, tab, sched = case
     return "1|%d|%s|%s|%s|%s" % (mode, " ".join(map(str, procs)), enc(ids), enc(tab), " ".join(map(str, sched)))
@@ -170,9 +213,12 @@ def replay_main(path):
     still = False
     for cs, o in zip(obj["cases"], out):
         g = [x.split() for x in cs.split("|")]
-        case = (int(g[1][0]), [int(x) for x in g[2]], dec(g[3]), dec(g[4]), [int(x) for x in g[5]])
-        print("case   %s\nresult %s" % (cs, o))
-        for key, desc in predicates(case, o, obj.get("nslots", 50)):
+        print("case   %s\nresult %s" % (cs[:2000], o[:2000]))
+        if g[0] == ["2"]:
+            found = stress_predicates(dec(g[2]), dec(g[3]), (int(g[1][0]), int(g[1][1])), o, obj.get("nslots", 50))[0]
+        else:
+            found = predicates((int(g[1][0]), [int(x) for x in g[2]], dec(g[3]), dec(g[4]), [int(x) for x in g[5]]), o, obj.get("nslots", 50))
+        for key, desc in found:
             print("  %s: %s" % (key, desc))
             still = True
     print("replay: %s" % ("property still violated on this input" if still else "input now behaves"))
@@ -266,6 +312,27 @@ def main():
             c.broken.append({"kind": "correspondence", "where": "observed SetupNewUser traces vs Model/C15 replay",
                              "theorem": "trace validation (replay accepts the observed trace with the same results, index and .PASSWDS ids)",
                              "mismatches": len(badm), "examples": badm[:3], "log": ""})
+    # ---- unscheduled runs: real concurrency, no schedule points held (the model is not involved)
+    spool = [b"user%02d" % k for k in range(12)] + [b"USER%02d" % k for k in range(6)] + [b"sysop"]
+    scases = []
+    for r in range(200 if thorough else 10):
+        shape = rng.choice([(2, 8), (3, 6), (1, 16), (2, 12)])
+        pool = list(spool)
+        rng.shuffle(pool)
+        scases.append((shape, pool, table(rng.choice([10, 10, 5, 20]))))
+    slines = ["2|%d %d|%s|%s" % (sh[0], sh[1], enc(pool), enc(tab)) for sh, pool, tab in scases]
+    sio = run_cases(impl, slines, par=4)
+    vf.ipc_cleanup()
+    c.count(len(slines), "unscheduled stress runs")
+    sstats = {}
+    for (sh, pool, tab), line, o in zip(scases, slines, sio):
+        bad, st = stress_predicates(pool, tab, sh, o, nslots)
+        for k, v in st.items():
+            sstats[k] = sstats.get(k, 0) + v
+        for key, desc in bad:
+            c.violation(key, desc, {"cases": [line], "got": o[:3000], "nslots": nslots})
+        c.nontrivial(("stress", sh, tuple(pool), tuple(sorted(st.items()))))
+    c.cov["stress_call_results"] = sstats
     c.sample({"kind": kinds[0], "procs": cases[0][1], "ids": [i.decode() for i in cases[0][2]], "schedule": cases[0][4], "observed": io[0][:400]})
     c.sample({"kind": kinds[nw + 5], "procs": cases[nw + 5][1], "schedule": cases[nw + 5][4], "observed": io[nw + 5][:400]})
     c.sample({"kind": kinds[n2 + 1], "procs": cases[n2 + 1][1], "ids": [i.decode() for i in cases[n2 + 1][2]], "schedule": cases[n2 + 1][4], "observed": io[n2 + 1][:400]})
